@@ -69,6 +69,21 @@ def gen_module(rng, idx):
                 tl += st.render('ps2', 0)
             text, wants = '\n'.join(tl), {}
         if rng.random() < 0.15:
+            # a freeform docstring with a paragraph that is not meant to run (a special label: Ignore:, Script:, ...) between its examples:
+            # the examples in front of it and behind the next line of prose are the doctest
+            s1 = [gendoc.Stmt(rng.choice(['assign', 'print', 'multi', 'for', 'expr', 'def']), 10 + i) for i in range(rng.randint(1, 3))]
+            s2 = [gendoc.Stmt(rng.choice(['assign', 'print', 'multi', 'for', 'expr', 'augassign']), 30 + i) for i in range(rng.randint(1, 3))]
+            t1, w1 = gendoc.render_layout(rng, s1, google=False, allow_prose=False, vary_indent=False)
+            t2, w2 = gendoc.render_layout(rng, s2, google=False, allow_prose=False, vary_indent=False)
+            hdr = rng.choice(['Ignore:', 'Script:', 'DisableDoctest:', 'SkipDoctest:', 'Benchmark:', 'DisableExample:'])
+            pad = t1[:len(t1) - len(t1.lstrip(' '))]
+            mid = ['', pad + hdr, pad + '    >>> print("never dumped %d")' % j, pad + '    never dumped %d' % j, pad + '    >>> never_dumped = 1', '',
+                   pad + 'After that paragraph the examples go on.', '']
+            text = t1 + '\n' + '\n'.join(mid) + '\n' + t2
+            stmts = s1 + s2
+            wants = dict(w1)
+            wants.update({k + len(s1): v for k, v in w2.items()})
+        if rng.random() < 0.15:
             text = '>>> # xdoctest: +SKIP\n' + text if not text.startswith(('Summary', ' ')) and text.startswith('>>>') else text
         name = 'fn%d_%d' % (idx, j)
         if rng.random() < 0.12 and not any(n in used_special for n in ('dump', 'all')):
